@@ -3,6 +3,8 @@
    run.  A change of an enumerator, of BaseEncodingSize, or of any Encoding<T>::Prefix /
    Match decision chain in the code changes Gen.v and breaks a lemma here. *)
 From Nop Require Import Base Wire SipHash Gen.
+(* Gen.v defines a function by the model itself when its C++ source is outside the translated subset (then the
+   lemma below is trivial and the function is tied by the correspondence check only): the proofs allow for both. *)
 From Coq Require Import Lia ZifyBool.
 Local Open Scope N_scope.
 
@@ -89,15 +91,15 @@ Ltac unfold_prefixes :=
     gen_Prefix_i8, gen_Prefix_i16, gen_Prefix_i32, gen_Prefix_i64, P_U8, P_U16, P_U32, P_U64, P_I8, P_I16, P_I32, P_I64.
 
 Lemma prefix_agrees_u8 z : in_range U8 z = true -> scalar_prefix (SInt U8) z = gen_Prefix_u8 z.
-Proof. intros H. range_hyp H. unfold_prefixes. rewrite (mod256_small z) by lia. chain. Qed.
+Proof. intros H. range_hyp H. unfold_prefixes. try rewrite (mod256_small z) by lia. chain. Qed.
 Lemma prefix_agrees_char z : in_range U8 z = true -> scalar_prefix (SInt U8) z = gen_Prefix_char z.
-Proof. intros H. range_hyp H. unfold_prefixes. rewrite (mod256_small z) by lia. chain. Qed.
+Proof. intros H. range_hyp H. unfold_prefixes. try rewrite (mod256_small z) by lia. chain. Qed.
 Lemma prefix_agrees_u16 z : in_range U16 z = true -> scalar_prefix (SInt U16) z = gen_Prefix_u16 z.
-Proof. intros H. range_hyp H. unfold_prefixes. chain; rewrite (mod256_small z) by lia; reflexivity. Qed.
+Proof. intros H. range_hyp H. unfold_prefixes. chain; try (rewrite (mod256_small z) by lia); reflexivity. Qed.
 Lemma prefix_agrees_u32 z : in_range U32 z = true -> scalar_prefix (SInt U32) z = gen_Prefix_u32 z.
-Proof. intros H. range_hyp H. unfold_prefixes. chain; rewrite (mod256_small z) by lia; reflexivity. Qed.
+Proof. intros H. range_hyp H. unfold_prefixes. chain; try (rewrite (mod256_small z) by lia); reflexivity. Qed.
 Lemma prefix_agrees_u64 z : in_range U64 z = true -> scalar_prefix (SInt U64) z = gen_Prefix_u64 z.
-Proof. intros H. range_hyp H. unfold_prefixes. chain; rewrite (mod256_small z) by lia; reflexivity. Qed.
+Proof. intros H. range_hyp H. unfold_prefixes. chain; try (rewrite (mod256_small z) by lia); reflexivity. Qed.
 Lemma prefix_agrees_i8 z : in_range I8 z = true -> scalar_prefix (SInt I8) z = gen_Prefix_i8 z.
 Proof. intros H. range_hyp H. unfold_prefixes. chain. Qed.
 Lemma prefix_agrees_i16 z : in_range I16 z = true -> scalar_prefix (SInt I16) z = gen_Prefix_i16 z.
